@@ -6,12 +6,12 @@
    process identity is used there - Tie/C12_tie.v, regenerated from the SSA form on every run).  The theorems say,
    for each class of map iteration found there, that the loop computes the same for every visiting order.
    PARTIAL: the composition over the whole pipeline is by the inventory (every site belongs to a proved class), not one
-   theorem over an oracle-parameterised model; the premises of the UniqueMatch and Singleton classes (groups of one
-   level are disjoint; one key) are invariants of the code that are evaluated, not proved; address-dependent
+   theorem over an oracle-parameterised model; the premise of the UniqueMatch class (groups of one level are disjoint) is proved for all inputs
+   (Parser/Disjoint.v); that of the Singleton class (one key) is an invariant of the code that is evaluated, not proved; address-dependent
    behaviour of the heap is outside the value model.  The check repeats every conversion 5 times in one process and
    in 3 fresh processes. *)
 From Coq Require Import List Arith Permutation Strings.Byte.
-From IGP Require Import Base.Str Parser.PStr Parser.Combo Model.MapSites Gen.Sites Proofs.OracleProof Tie.C12_tie.
+From IGP Require Import Base.Str Parser.PStr Parser.Combo Model.MapSites Gen.Sites Proofs.OracleProof Parser.Disjoint Tie.C12_tie.
 Import ListNotations.
 
 (* the inventory: every map iteration reachable from the endpoints is one of the analysed sites, and vice versa *)
@@ -50,6 +50,20 @@ Theorem C12_find_outer_any_order : forall lm l' b es',
   find (encloses b) es' = find_outer lm (S l') b.
 Proof. exact find_outer_any_order. Qed.
 Print Assumptions C12_find_outer_any_order.
+
+(* ... and that premise holds for whatever detectCombinations returns, for EVERY input string and any number of restarts:
+   the groups recorded on one level each close before the next one opens (Parser/Disjoint.v), so the enclosing-group
+   search of extractSharedComponents is independent of the map's iteration order without any assumption *)
+Theorem C12_enclosing_group_any_order : forall lp rp fuel expr lm e' l' b es',
+  detect fuel expr lp rp = Ok (lm, e') -> bL b <= bR b -> Permutation (nth l' lm []) es' ->
+  find (encloses b) es' = find_outer lm (S l') b.
+Proof. exact enclosing_group_any_order. Qed.
+Print Assumptions C12_enclosing_group_any_order.
+
+Theorem C12_groups_of_a_level_are_apart : forall lp rp fuel expr lm e', detect fuel expr lp rp = Ok (lm, e') ->
+  forall l v w, In v (nth l lm []) -> In w (nth l lm []) -> apart v w.
+Proof. exact detect_groups_apart. Qed.
+Print Assumptions C12_groups_of_a_level_are_apart.
 
 (* the premise cannot be dropped: with two candidates the order shows (what a relaxed condition would cause) *)
 Example C12_order_shows_without_uniqueness :
